@@ -55,6 +55,8 @@ def rule_ownership(ctx, eff: Effects):
                 pass  # inherited: the same summary applies with the subclass constructor (also analysed)
             sm = eff.sum[m.qualname]
             roots = [(p, path) for (p, path) in sm.ret if not path.endswith((".size", ".shape", ".ndim", ".dtype", ".execution_time", ".n_pol"))]
+            eff._ann = eff._annotations(m)
+            roots = [(p, path) for (p, path) in roots if not (path == "" and eff._is_scalar_param(m, p))]      # option strings / flags / numbers are not buffers
             if roots:
                 ctx.violation("C01.1", m, m.node, f"{cls}.{meth} result may alias {sorted(set(p + path for p, path in roots))}",
                               "the returned object shares memory with an operand (or is the operand itself)")
